@@ -20,9 +20,9 @@ import (
 // comparisons, indexing of constant tables), anything else yields unknown and both branches are explored.
 
 type c01Val struct {
-	k byte              // 'U' unknown, 'B' bool, 'I' int, 'P' pointer to iterator field, 'R' pointer to a cell, 'N' nil pointer, 'E' error value, 'F' value of an iterator field, 'C' composite
-	i int64             // B: 0/1, I: value, P/F: field index, E: 'Z' nil, 'E' non-nil, '?' unknown
-	s string            // R: cell path
+	k byte              // 'U' unknown, 'B' bool, 'I' int, 'P' pointer to iterator field, 'R' pointer to a cell, 'N' nil pointer, 'E' error value, 'F' value of an iterator field, 'T' iterator held in a cell, 'C' composite
+	i int64             // B: 0/1, I: value, P/F: field index, E: 'Z' nil, 'E' non-nil, '?' unknown, T: 'S' stale, 'A' assigned from the current message
+	s string            // R: cell path, T: label of the struct field the iterator was read from
 	m map[string]c01Val // C: sub-path -> scalar
 }
 
@@ -45,6 +45,8 @@ func (v c01Val) enc() string {
 		return "E" + string(byte(v.i))
 	case 'R':
 		return "R" + v.s
+	case 'T':
+		return "T" + string(byte(v.i)) + v.s
 	case 'C':
 		var ks []string
 		for k := range v.m {
@@ -199,6 +201,30 @@ func c01Flatten(m map[string]c01Val, prefix string, v c01Val) {
 		return
 	}
 	m[prefix] = v
+}
+
+// c01ZeroLax is c01Zero for the elements of constant tables: struct fields of types that are not tracked (strings,
+// floats ...) are left out instead of making the whole value untracked; at least one field must remain.
+func c01ZeroLax(t types.Type) (c01Val, bool) {
+	b := c01MaxCells
+	if z, ok := c01Zero(t, &b); ok {
+		return z, true
+	}
+	st, ok := t.Underlying().(*types.Struct)
+	if !ok {
+		return c01Unknown, false
+	}
+	m := map[string]c01Val{}
+	for i := 0; i < st.NumFields(); i++ {
+		b := c01MaxCells
+		if fv, ok := c01Zero(st.Field(i).Type(), &b); ok {
+			c01Flatten(m, "."+st.Field(i).Name(), fv)
+		}
+	}
+	if len(m) == 0 {
+		return c01Unknown, false
+	}
+	return c01Val{k: 'C', m: m}, true
 }
 
 // c01Trackable reports whether values of type t are kept in cells.
